@@ -69,7 +69,17 @@ TERMINALS = {
     "two": ("lit", 0),
     "three": ("lit", 0),
 }
+# the same kinds on a second mesh (domain 2 of a multi-domain world): name + "_b"
+for _nm in ("f1", "u1", "g", "w", "v", "x", "n", "h", "a", "c"):
+    TERMINALS[_nm + "_b"] = TERMINALS[_nm]
 LITVAL = {"two": 2, "three": 3}
+
+
+def dom_of(nm):
+    """Index (from 1) of the domain a terminal lives on."""
+    return 2 if nm.endswith("_b") else 1
+
+
 SINGLE = {"cg", "x", "facetq", "const", "lit"}
 HANDLER = {
     "cg": "coefficient",
@@ -103,7 +113,25 @@ MESHES = {
     "manifold": {"deg": 1, "h1": True, "gdim": 3, "tdim": 2, "text": "affine manifold mesh (triangles in R^3)"},
     "p2manifold": {"deg": 2, "h1": True, "gdim": 3, "tdim": 2, "text": "P2 manifold mesh (triangles in R^3)"},
     "dgmesh": {"deg": 1, "h1": False, "gdim": 2, "tdim": 2, "text": "mesh with broken P1 coordinates"},
+    # a mesh of intervals in R^2 (the facets of a triangle mesh as a mesh of their own): only as the one-sided
+    # domain of a multi-domain integral
+    "codim1": {"deg": 1, "h1": True, "gdim": 2, "tdim": 1, "text": "affine mesh of intervals in R^2", "aux": True},
 }
+# integral types the propagation distinguishes (default_restriction_map: None / '+'), with the Measure names
+MEASURE = {"cell": "dx", "exterior_facet": "ds", "interior_facet": "dS"}
+
+
+def dS_only(mesh):
+    """The domains of a plain interior-facet integral over one mesh."""
+    return [{"mesh": mesh, "it": "interior_facet", "inm": True}]
+
+
+def doms_text(doms):
+    if len(doms) == 1 and doms[0]["it"] == "interior_facet":
+        return MESHES[doms[0]["mesh"]]["text"]
+    ms = [f"{MEASURE[d['it']]}({MESHES[d['mesh']]['text']})" for d in doms if d["inm"]]
+    extra = [MESHES[d["mesh"]]["text"] for d in doms if not d["inm"]]
+    return " /\\ ".join(ms) + (f", integrand also on a second {extra[0]} that is not in the Measure" if extra else "")
 
 JAVA = "-DTLA-Library=" + os.path.join(os.path.dirname(os.path.dirname(os.path.dirname(os.path.abspath(__file__)))), "spec") + " -Xmx3g -Xmn256m -XX:ParallelGCThreads=2"
 
@@ -112,9 +140,13 @@ class Slice:
     """One bounded instance (a record of the constant Configs of spec/Restrict.tla).  atoms: operands
     available from the start, written "g", "g+", "g-", "grad(g)+", "rv(g)-" (default: the terminals)."""
 
-    def __init__(self, name, terms, levels, maxnodes=None, mesh="affine", maxdead=0, simulate=None, depth=None, atoms=None, run=None):
+    def __init__(self, name, terms, levels, maxnodes=None, mesh="affine", maxdead=0, simulate=None, depth=None, atoms=None, run=None, doms=None, form_every=None):
         self.name = name
         self.mesh = mesh
+        self.doms = doms or dS_only(mesh)  # the Measure: domain 1 = mesh (primary), the others: intersect measures / integrand only
+        if self.doms[0]["mesh"] != mesh:
+            raise MachineryError(f"slice {name}: the primary domain is not the mesh {mesh}")
+        self.form_every = form_every  # every n-th eligible integrand goes through compute_form_data (None: the tier's default)
         self.run = run or mesh
         self.terms = list(terms)
         self.atoms = list(atoms) if atoms is not None else list(terms)
@@ -130,12 +162,16 @@ class Run:
     mesh kind and in the same mode (exhaustive / simulation) share the terminal table (the union of
     theirs) and the environments."""
 
-    def __init__(self, name, slices=(), mesh="affine", simulate=None, depth=None, terms=None, nenv=2):
+    def __init__(self, name, slices=(), mesh="affine", simulate=None, depth=None, terms=None, nenv=2, doms=None):
         self.name = name
         self.slices = list(slices)
         self.mesh = mesh
         self.geo = MESHES[mesh]
         self.gdim = self.geo["gdim"]
+        self.doms = doms or (self.slices[0].doms if self.slices else dS_only(mesh))
+        if any(sl.doms != self.doms for sl in self.slices):
+            raise MachineryError(f"run {name}: slices over different measures")
+        self.text = doms_text(self.doms)
         self.simulate = simulate
         self.depth = depth
         self.nenv = nenv
@@ -145,14 +181,26 @@ class Run:
         for nm in self.terms:
             if (nm in ("q", "rn") and self.gdim != self.geo["tdim"]) or (nm == "cn" and self.gdim != self.geo["tdim"] + 1):
                 raise MachineryError(f"terminal {nm} is not available on the mesh kind {mesh} (vectors of the model have gdim components)")
+            if dom_of(nm) > len(self.doms):
+                raise MachineryError(f"terminal {nm}: the world {name} has no domain {dom_of(nm)}")
+
+    def geo_of(self, nm):
+        """Mesh kind of the domain of a terminal."""
+        return MESHES[self.doms[dom_of(nm) - 1]["mesh"]]
+
+    def eff_type(self, k):
+        """Integral type of domain k (from 0) as FormData sees it -- ONLY used to build the real Measure / map; the
+        one-sided domains the judgement relies on are those the specification dumps (checked against this)."""
+        d = self.doms[k]
+        return d["it"] if d["inm"] else self.doms[0]["it"]
 
     def to_json(self):
-        return {"name": self.name, "terms": self.terms, "mesh": self.mesh, "nenv": self.nenv}
+        return {"name": self.name, "terms": self.terms, "mesh": self.mesh, "nenv": self.nenv, "doms": self.doms}
 
     @staticmethod
     def from_json(j):
         mesh = j["mesh"] if "mesh" in j else "affine" if j["affine"] else "p2mesh"  # (replay files written before the mesh kinds)
-        return Run(j["name"], (), mesh, terms=j["terms"], nenv=j.get("nenv", 2))
+        return Run(j["name"], (), mesh, terms=j["terms"], nenv=j.get("nenv", 2), doms=j.get("doms"))
 
     def atom_term(self, a):
         side = a[-1] if a[-1] in "+-" else None
@@ -184,15 +232,19 @@ def batches(runs, quick):
     """Worlds -> TLC invocations (the JVM start and warm-up cost more than a small world): the quick tier
     explores every exhaustive world in one invocation, the thorough tier the affine worlds one by one and
     the other mesh kinds together; every simulation runs on its own."""
-    ex = [r for r in runs if not r.simulate]
+    multi = [r for r in runs if not r.simulate and len(r.doms) > 1]
+    ex = [r for r in runs if not r.simulate and len(r.doms) == 1]
     out = []
     if quick:
-        out.append(Batch("exhaustive", ex))
+        if ex:
+            out.append(Batch("exhaustive", ex))
     else:
         out += [Batch(r.name, [r]) for r in ex if r.mesh == "affine"]
         rest = [r for r in ex if r.mesh != "affine"]
         if rest:
             out.append(Batch("meshes", rest))
+    if multi:
+        out.append(Batch("measures", multi))  # the multi-domain measures: an invocation of their own, beside the others
     out += [Batch(r.name, [r], r.simulate, r.depth) for r in runs if r.simulate]
     return [b for b in out if b.runs]
 
@@ -204,10 +256,10 @@ def group(sls):
         ex = [s for s in sls if s.run == label and not s.simulate]
         if len({s.mesh for s in ex}) != 1:
             raise MachineryError(f"run {label}: slices on different mesh kinds")
-        runs.append(Run(label, ex, ex[0].mesh))
+        runs.append(Run(label, ex, ex[0].mesh, doms=ex[0].doms))
     for s in sls:
         if s.simulate:
-            runs.append(Run(s.name, [s], s.mesh, s.simulate, s.depth))
+            runs.append(Run(s.name, [s], s.mesh, s.simulate, s.depth, doms=s.doms))
     return runs
 
 
@@ -226,7 +278,6 @@ def gen_envs(sl, seed):
     built in; the specification checks them (ASSUME Admissible) and that nothing more is built in for
     the facet normal (ASSUME Discriminating)."""
     G = sl.gdim
-    opposite_normals = sl.geo["deg"] <= 1 and sl.geo["h1"] and G == sl.geo["tdim"]
     rng = random.Random(seed * 1000003 + sum(ord(ch) for ch in sl.name) * 7919 + 5)
     envs = []
     for _ in range(sl.nenv):
@@ -234,6 +285,8 @@ def gen_envs(sl, seed):
         for nm in sl.terms:
             kind, sh = TERMINALS[nm]
             L = G if sh else 1
+            geo = sl.geo_of(nm)  # the mesh kind of the terminal's own domain
+            opposite_normals = geo["deg"] <= 1 and geo["h1"] and geo["gdim"] == geo["tdim"]
 
             def vec(n, avoid=()):
                 while True:
@@ -271,13 +324,18 @@ def _tla_pm(pm):
     return f"[p |-> {_tla_vec(pm['+'])}, m |-> {_tla_vec(pm['-'])}]"
 
 
+def _tla_mesh(kind):
+    g = MESHES[kind]
+    return f'[name |-> "{kind}", deg |-> {g["deg"]}, h1 |-> {"TRUE" if g["h1"] else "FALSE"}, gdim |-> {g["gdim"]}, tdim |-> {g["tdim"]}]'
+
+
 def mc_module(name, batch, envs):
     """envs[i] = the environments of batch.runs[i]."""
-    meshes, terms, tvals, cfgs = [], [], [], []
+    meshes, doms, terms, tvals, cfgs = [], [], [], [], []
     for wi, run in enumerate(batch.runs):
-        g = run.geo
-        meshes.append(f'[name |-> "{run.mesh}", deg |-> {g["deg"]}, h1 |-> {"TRUE" if g["h1"] else "FALSE"}, gdim |-> {g["gdim"]}, tdim |-> {g["tdim"]}]')
-        terms.append("<<" + ", ".join(f'[nm |-> "{nm}", kind |-> "{TERMINALS[nm][0]}", sh |-> {TERMINALS[nm][1]}]' for nm in run.terms) + ">>")
+        meshes.append(_tla_mesh(run.mesh))
+        doms.append("<<" + ", ".join(f'[mesh |-> {_tla_mesh(d["mesh"])}, it |-> "{d["it"]}", inm |-> {"TRUE" if d["inm"] else "FALSE"}]' for d in run.doms) + ">>")
+        terms.append("<<" + ", ".join(f'[nm |-> "{nm}", kind |-> "{TERMINALS[nm][0]}", sh |-> {TERMINALS[nm][1]}, dom |-> {dom_of(nm)}]' for nm in run.terms) + ">>")
         tv = []
         for env in envs[wi]:
             tv.append("<<" + ",\n    ".join(f"[v |-> {_tla_pm(env[nm]['v'])}, g |-> {_tla_pm(env[nm]['g'])}, r |-> {_tla_pm(env[nm]['r'])}]" for nm in run.terms) + ">>")
@@ -290,6 +348,7 @@ def mc_module(name, batch, envs):
     return f"""---- MODULE {name} ----
 EXTENDS Restrict
 MC_Meshes == <<{sep.join(meshes)}>>
+MC_Doms == <<{sep.join(doms)}>>
 MC_Terms == <<{sep.join(terms)}>>
 MC_TVal == <<{sep.join(tvals)}>>
 MC_Configs == <<{sep.join(cfgs)}>>
@@ -314,6 +373,7 @@ def mc_cfg(batch, dump=True):
     lines = [
         "CONSTANTS",
         "MeshesC <- MC_Meshes",
+        "DomsC <- MC_Doms",
         "TermsC <- MC_Terms",
         "TValC <- MC_TVal",
         "Configs <- MC_Configs",
@@ -330,7 +390,7 @@ def mc_cfg(batch, dump=True):
 def run_tlc(batch, seed, workers=3, timeout=900):
     """-> ([environments of every world of the batch], TLC result)"""
     envs = [gen_envs(r, seed) for r in batch.runs]
-    name = "MC_Restrict_" + batch.name.replace("-", "_")
+    name = "MC_Restrict_" + "".join(ch if ch.isalnum() else "_" for ch in batch.name)
     kw = {}
     if batch.simulate:
         kw = dict(simulate=f"num={batch.simulate}", depth=batch.depth, seed=seed + 1)
@@ -347,6 +407,10 @@ class Unrestricted(Exception):
     """The oracle was asked for the value of a side-dependent terminal outside any restriction."""
 
 
+class OneSidedRestricted(Unrestricted):
+    """The oracle was asked for the '+' / '-' value of a terminal of a one-sided domain."""
+
+
 class World:
     def __init__(self, sl):
         import ufl
@@ -357,48 +421,59 @@ class World:
 
         self.ufl = ufl
         self.sl = sl
-        cell = ufl.triangle
-        geo = sl.geo
-        G = geo["gdim"]
-        if geo["h1"]:
-            ce = LagrangeElement(cell, geo["deg"], (G,))
-        else:
-            ce = FiniteElement("Discontinuous Lagrange", cell, geo["deg"], (G,), identity_pullback, L2)
-        self.mesh = ufl.Mesh(ce)
-        m = self.mesh
+        G = sl.gdim
 
-        def space(e):
-            return ufl.FunctionSpace(m, e)
-
-        def dg(deg, shape=()):
+        def dg(cell, deg, shape=()):
             return FiniteElement("Discontinuous Lagrange", cell, deg, shape, identity_pullback, L2)
 
+        # one mesh per domain of the measure
+        self.meshes, self.cells = [], []
+        for d in sl.doms:
+            geo = MESHES[d["mesh"]]
+            cell = {1: ufl.interval, 2: ufl.triangle}[geo["tdim"]]
+            ce = LagrangeElement(cell, geo["deg"], (G,)) if geo["h1"] else dg(cell, geo["deg"], (G,))
+            self.meshes.append(ufl.Mesh(ce))
+            self.cells.append(cell)
+        self.mesh = self.meshes[0]
+        # the Measure: primary domain and its intersect measures (Measure(..., intersect_measures=...))
+        inter = tuple(ufl.Measure(MEASURE[d["it"]], m) for d, m in list(zip(sl.doms, self.meshes))[1:] if d["inm"])
+        self.measure = ufl.Measure(MEASURE[sl.doms[0]["it"]], self.mesh, intersect_measures=inter or None)
+
+        def on(f):
+            """Constructor of a terminal on the mesh of its domain: f(mesh, cell, space)."""
+
+            def make(nm):
+                m, cell = self.meshes[dom_of(nm) - 1], self.cells[dom_of(nm) - 1]
+                return f(m, cell, lambda e: ufl.FunctionSpace(m, e))
+
+            return make
+
         mk = {
-            "f1": lambda: ufl.Coefficient(space(LagrangeElement(cell, 1))),
-            "f2": lambda: ufl.Coefficient(space(LagrangeElement(cell, 2))),
-            "u1": lambda: ufl.Coefficient(space(LagrangeElement(cell, 1, (G,)))),
-            "u2": lambda: ufl.Coefficient(space(LagrangeElement(cell, 2, (G,)))),
-            "g": lambda: ufl.Coefficient(space(dg(1))),
-            "g0": lambda: ufl.Coefficient(space(dg(0))),
-            "w": lambda: ufl.Coefficient(space(dg(1, (G,)))),
-            "q": lambda: ufl.Coefficient(space(FiniteElement("Raviart-Thomas", cell, 1, (2,), contravariant_piola, HDiv))),
-            "v": lambda: ufl.TestFunction(space(LagrangeElement(cell, 1))),
-            "vd": lambda: ufl.TrialFunction(space(dg(1))),
-            "vv": lambda: ufl.TestFunction(space(LagrangeElement(cell, 2, (G,)))),
-            "x": lambda: ufl.SpatialCoordinate(m),
-            "n": lambda: ufl.FacetNormal(m),
-            "h": lambda: ufl.CellVolume(m),
-            "cn": lambda: ufl.CellNormal(m),
-            "rn": lambda: ufl.classes.ReferenceNormal(m),
-            "rc": lambda: ufl.Circumradius(m),
-            "a": lambda: ufl.FacetArea(m),
-            "mf": lambda: ufl.MinFacetEdgeLength(m),
-            "c": lambda: ufl.Constant(m),
-            "cv": lambda: ufl.VectorConstant(m),
-            "two": lambda: ufl.as_ufl(2),
-            "three": lambda: ufl.as_ufl(3),
+            "f1": on(lambda m, cell, space: ufl.Coefficient(space(LagrangeElement(cell, 1)))),
+            "f2": on(lambda m, cell, space: ufl.Coefficient(space(LagrangeElement(cell, 2)))),
+            "u1": on(lambda m, cell, space: ufl.Coefficient(space(LagrangeElement(cell, 1, (G,))))),
+            "u2": on(lambda m, cell, space: ufl.Coefficient(space(LagrangeElement(cell, 2, (G,))))),
+            "g": on(lambda m, cell, space: ufl.Coefficient(space(dg(cell, 1)))),
+            "g0": on(lambda m, cell, space: ufl.Coefficient(space(dg(cell, 0)))),
+            "w": on(lambda m, cell, space: ufl.Coefficient(space(dg(cell, 1, (G,))))),
+            "q": on(lambda m, cell, space: ufl.Coefficient(space(FiniteElement("Raviart-Thomas", cell, 1, (2,), contravariant_piola, HDiv)))),
+            "v": on(lambda m, cell, space: ufl.TestFunction(space(LagrangeElement(cell, 1)))),
+            "vd": on(lambda m, cell, space: ufl.TrialFunction(space(dg(cell, 1)))),
+            "vv": on(lambda m, cell, space: ufl.TestFunction(space(LagrangeElement(cell, 2, (G,))))),
+            "x": on(lambda m, cell, space: ufl.SpatialCoordinate(m)),
+            "n": on(lambda m, cell, space: ufl.FacetNormal(m)),
+            "h": on(lambda m, cell, space: ufl.CellVolume(m)),
+            "cn": on(lambda m, cell, space: ufl.CellNormal(m)),
+            "rn": on(lambda m, cell, space: ufl.classes.ReferenceNormal(m)),
+            "rc": on(lambda m, cell, space: ufl.Circumradius(m)),
+            "a": on(lambda m, cell, space: ufl.FacetArea(m)),
+            "mf": on(lambda m, cell, space: ufl.MinFacetEdgeLength(m)),
+            "c": on(lambda m, cell, space: ufl.Constant(m)),
+            "cv": on(lambda m, cell, space: ufl.VectorConstant(m)),
+            "two": on(lambda m, cell, space: ufl.as_ufl(2)),
+            "three": on(lambda m, cell, space: ufl.as_ufl(3)),
         }
-        self.objs = [mk[nm]() for nm in sl.terms]
+        self.objs = [mk[nm[:-2] if nm.endswith("_b") else nm](nm) for nm in sl.terms]
         self.by_name = dict(zip(sl.terms, self.objs))
         self.name_of = {o: nm for nm, o in self.by_name.items() if TERMINALS[nm][0] != "lit"}
         # the kinds of the model must be the kinds of the real objects
@@ -412,12 +487,32 @@ class World:
                 raise MachineryError(f"terminal {nm}: reference value shape {o.ufl_element().reference_value_shape}")
             if isinstance(o, (ufl.Coefficient, ufl.Argument)) and tuple(ufl.grad(o).ufl_shape) != (*o.ufl_shape, G):
                 raise MachineryError(f"terminal {nm}: gradient shape {ufl.grad(o).ufl_shape}")
-        # the mesh kind of the model must be the kind of the real mesh
-        ce = m.ufl_coordinate_element()
-        real = {"deg": ce.embedded_superdegree, "h1": ce in H1, "gdim": m.geometric_dimension, "tdim": m.topological_dimension}
-        if real != {k: geo[k] for k in real}:
-            raise MachineryError(f"mesh kind {sl.mesh}: the model has {geo}, the real mesh {real}")
+        # the mesh kinds of the model must be the kinds of the real meshes, the domain of a terminal its real domain
+        for d, m in zip(sl.doms, self.meshes):
+            geo = MESHES[d["mesh"]]
+            ce = m.ufl_coordinate_element()
+            real = {"deg": ce.embedded_superdegree, "h1": ce in H1, "gdim": m.geometric_dimension, "tdim": m.topological_dimension}
+            if real != {k: geo[k] for k in real}:
+                raise MachineryError(f"mesh kind {d['mesh']}: the model has {geo}, the real mesh {real}")
+        for nm, o in self.by_name.items():
+            if TERMINALS[nm][0] != "lit" and ufl.domain.extract_unique_domain(o) is not self.meshes[dom_of(nm) - 1]:
+                raise MachineryError(f"terminal {nm}: not on domain {dom_of(nm)}")
         self.cache = {}
+        self.one_sided = None  # names of the terminals of one-sided domains: from the first record of the specification
+
+    def bind_sides(self, rec):
+        """The one-sided terminals are those the specification says (dump field os); the integral types the real
+        Measure was built from must say the same (default_restriction_map of the code under test)."""
+        from ufl.algorithms.apply_restrictions import default_restriction_map
+
+        os_ = set(rec.get("os", ()))
+        if self.one_sided is None:
+            mine = {nm for nm in self.sl.terms if default_restriction_map[self.sl.eff_type(dom_of(nm) - 1)] is None}
+            if mine != os_:
+                raise MachineryError(f"world {self.sl.name}: the specification has the one-sided terminals {sorted(os_)}, the measure {sorted(mine)}")
+            self.one_sided = os_
+        elif os_ != self.one_sided:
+            raise MachineryError(f"world {self.sl.name}: records with different one-sided terminals")
 
     @staticmethod
     def classify(o):
@@ -499,21 +594,22 @@ class World:
 
     # ---- the system under test ------------------------------------------------------------------
     def apply(self, expr, d):
-        """apply_restrictions as FormData.__init__ calls it for an interior facet integral."""
+        """apply_restrictions as FormData.__init__ calls it for an integral with an interior-facet domain: the map
+        gives every domain the default restriction of its integral type."""
         from ufl.algorithms.apply_restrictions import apply_restrictions, default_restriction_map
 
-        kw = {"default_restrictions": None if d == "none" else {self.mesh: default_restriction_map["interior_facet"]}}
+        kw = {"default_restrictions": None if d == "none" else {m: default_restriction_map[self.sl.eff_type(k)] for k, m in enumerate(self.meshes)}}
         if d == "check":
             kw["apply_default"] = False
         if expr.ufl_shape == ():
-            (integral,) = (expr * self.ufl.dS(self.mesh)).integrals()
+            (integral,) = (expr * self.measure).integrals()
             return apply_restrictions(integral, **kw).integrand()
         return apply_restrictions(expr, **kw)
 
     def form_data(self, expr, d):
         from ufl.algorithms import compute_form_data
 
-        fd = compute_form_data(expr * self.ufl.dS(self.mesh), do_apply_restrictions=True, do_apply_default_restrictions=(d == "default"), do_estimate_degrees=False)
+        fd = compute_form_data(expr * self.measure, do_apply_restrictions=True, do_apply_default_restrictions=(d == "default"), do_estimate_degrees=False)
         itgs = [i for idd in fd.integral_data for i in idd.integrals]
         if len(itgs) != 1:
             return None
@@ -541,7 +637,14 @@ class TwoSidedEnv:
             field, idx, single = "r", (comp[0] if comp else 0), kind == "cg"
         else:
             field, idx, single = "v", (comp[0] if comp else 0), kind in SINGLE
-        if side is None:
+        if self.w.one_sided is None:
+            raise MachineryError("the world is not bound to the one-sided terminals of the specification")
+        if nm in self.w.one_sided:
+            # one cell only: one value (slot '+' of the tables = field p of the specification), no sides
+            if side is not None and kind != "const":
+                raise OneSidedRestricted(f"{nm}:{field}")
+            side = "+"
+        elif side is None:
             if not single:
                 raise Unrestricted(f"{nm}:{field}")
             side = "+"
@@ -629,7 +732,8 @@ def leaves_of(w, expr):
 
 def structure_findings(w, out, d, leaves, problems, opposite):
     """Structural postcondition of the property on a real result (independent of the model's
-    propagation; opposite = the specification's NormalsOpposite for the mesh kind)."""
+    propagation; opposite = the facet normals whose two values the specification calls opposite;
+    w.one_sided = the terminals of the domains the specification calls one-sided)."""
     F = []
     for p in sorted(problems):
         if p.startswith(("restriction-on-nonterminal", "double-restriction", "restricted-literal", "foreign-terminal")):
@@ -638,6 +742,10 @@ def structure_findings(w, out, d, leaves, problems, opposite):
             F.append(("C17:structure:variable-not-stripped", "a Variable survives the propagation"))
     for nm, ch, side in sorted(leaves):
         kind = TERMINALS[nm][0]
+        if nm in w.one_sided:
+            if side != "0" and kind != "const":
+                F.append((f"C17:structure:restricted-one-sided:{ch or kind}", f"{ch + ' of ' if ch else ''}{nm} ({kind}) lives on a one-sided domain and is restricted in the result"))
+            continue
         single = (kind in SINGLE and ch == "") or (kind == "cg" and ch == "rv")
         if side == "0" and not single:
             F.append((f"C17:structure:unrestricted:{ch or kind}", f"{ch + ' of ' if ch else ''}{nm} ({kind}) is not below a restriction in the result"))
@@ -645,7 +753,7 @@ def structure_findings(w, out, d, leaves, problems, opposite):
             F.append(("C17:structure:restricted-constant", f"the constant {nm} is restricted in the result"))
         if d == "default" and side == "0" and kind not in ("const", "lit"):
             F.append((f"C17:structure:default-not-applied:{ch or kind}", f"{nm} is not restricted although defaults are applied"))
-        if d != "none" and opposite and kind == "n" and side == "-":
+        if d != "none" and nm in opposite and kind == "n" and side == "-":
             F.append(("C17:structure:facet-normal-minus-left", "n('-') survives on an affine mesh with default restrictions"))
     return F
 
@@ -722,7 +830,8 @@ def judge(w, envs, rec, stats, form_every=0):
     sl = w.sl
     term = tup(rec["term"])
     d = rec["d"]
-    text = f"{term_text(sl, term)} [{MODE_TEXT[d]}, {sl.geo['text']}]"
+    text = f"{term_text(sl, term)} [{MODE_TEXT[d]}, {sl.text}]"
+    w.bind_sides(rec)
     try:
         expr = w.build(term)
     except Exception as exc:  # noqa: BLE001
@@ -734,6 +843,8 @@ def judge(w, envs, rec, stats, form_every=0):
         return []
     _bump(stats, "judged")
     F = _judge_direct(w, envs, rec, term, expr, in_leaves, text, stats)
+    if isinstance(form_every, dict):
+        form_every = form_every.get(rec["cfg"], 0)
     if form_every and not F and d != "check" and expr.ufl_shape == () and _form_ok(sl, term):
         _bump(stats, "form_eligible")
         if stats["form_eligible"] % form_every == 0:
@@ -750,10 +861,10 @@ def _judge_direct(w, envs, rec, term, expr, in_leaves, text, stats):
     except Exception as exc:  # noqa: BLE001 - the refusal is the observable
         out, real, msg = None, "reject", f"{type(exc).__name__}: {exc}"
     model = rec["verdict"]
-    _bump(stats, f"{model}/{real}/{'valid' if rec['valid'] else 'nested' if rec['nested'] else 'missing'}/{MODE_KEY[d]}")
+    _bump(stats, f"{model}/{real}/{_klass(rec)}/{MODE_KEY[d]}")
     F = []
     if real == "reject":
-        why = "twice" if "twice" in msg else "must-be-restricted" if "must be restricted" in msg else "other"
+        why = "twice" if "twice" in msg else "must-be-restricted" if "must be restricted" in msg else "inconsistent" if "Inconsistent restrictions" in msg else "other"
         if model == "accept":
             if rec["valid"]:
                 F.append((f"C17:rejects-valid:{why}", f"{text}: valid integrand refused: {msg}"))
@@ -761,15 +872,18 @@ def _judge_direct(w, envs, rec, term, expr, in_leaves, text, stats):
                 _bump(stats, "stricter_than_model")  # an invalid integrand refused where the model predicts acceptance
         elif why == "other":
             F.append(("C17:reject-reason:" + msg.split(":")[0], f"{text}: refused with an unexpected error {msg}"))
-        elif why != rec["why"] and not (rec["nested"] and rec["missing"]):
+        elif why != rec["why"] and sum(map(bool, (rec["nested"], rec["missing"], rec.get("onesided")))) < 2:
             _bump(stats, "reject_reason_differs")
         return F
     out_leaves, problems = leaves_of(w, out)
     if model == "reject":
         if rec["nested"]:
             F.append(("C17:accepted-double-restriction", f"{text}: a restriction below a restriction is accepted -> {str(out)[:120]}"))
-        else:
+        elif rec["missing"]:
             F.append((f"C17:accepted-missing-restriction:{_missing_handler(rec)}", f"{text}: accepted although {rec['missing']} lack a restriction -> {str(out)[:120]}"))
+        else:
+            # only a restricted quantity of a one-sided domain: neither a missing nor a double restriction
+            _bump(stats, "restricted_one_sided_accepted")
         return F
     want_out = {(l["nm"], l["ch"], l["s"]) for l in rec["leaves"]}
     if rec["dev"]:
@@ -811,7 +925,8 @@ def _judge_direct(w, envs, rec, term, expr, in_leaves, text, stats):
             vout = eval_vec(out, env)
         except Unrestricted as exc:
             nm = str(exc).split(":")[0]
-            F.append((f"C17:structure:unrestricted:{TERMINALS[nm][0]}", f"{text}: evaluating the result met the unrestricted {exc} -> {str(out)[:120]}"))
+            what = "restricted-one-sided" if isinstance(exc, OneSidedRestricted) else "unrestricted"
+            F.append((f"C17:structure:{what}:{TERMINALS[nm][0]}", f"{text}: evaluating the result met the {what} {exc} -> {str(out)[:120]}"))
             break
         _bump(stats, "evals", len(vout))
         if not veq(vout, vin):
@@ -835,13 +950,18 @@ def _judge_form(w, envs, rec, expr, text, stats):
     except Exception as exc:  # noqa: BLE001
         out, real, msg = None, "reject", f"{type(exc).__name__}: {exc}"
     _bump(stats, f"form:{'valid' if rec['valid'] else 'invalid'}/{real}/{MODE_KEY[d]}")
+    if not rec.get("prop", True):
+        raise MachineryError(f"{text}: the specification does not propagate restrictions on this integral (no interior-facet domain in the Measure)")
     if not rec["valid"]:
         if real == "reject":
             return []
         if rec["nested"]:
             return [("C17:accepted-double-restriction:compute_form_data", f"{text}: compute_form_data accepts a restriction below a restriction")]
+        if not rec["missing"]:
+            _bump(stats, "form_restricted_one_sided_accepted")
+            return []
         mode = "" if d == "default" else "default-off:"
-        return [(f"C17:accepted-missing-restriction:{mode}{_missing_handler(rec)}", f"{text}: compute_form_data(do_apply_default_restrictions={d == 'default'}) accepts the dS integrand although {rec['missing']} lack a restriction -> {str(out)[:120]}")]
+        return [(f"C17:accepted-missing-restriction:{mode}{_missing_handler(rec)}", f"{text}: compute_form_data(do_apply_default_restrictions={d == 'default'}) accepts the integrand although {rec['missing']} lack a restriction -> {str(out)[:120]}")]
     if real == "reject":
         if "restrict" in msg.lower():
             return [("C17:rejects-valid:compute_form_data", f"{text}: compute_form_data refuses the valid dS integrand: {msg}")]
@@ -858,16 +978,25 @@ def _judge_form(w, envs, rec, expr, text, stats):
                 F.append(("C17:value-changed:compute_form_data", f"{text}: env {e}: the integrand of the form data denotes {_fmt(eval_vec(out, env))}, the original {_fmt(eval_vec(expr, env))}"))
                 break
         except Unrestricted as exc:
-            F.append(("C17:structure:unrestricted:compute_form_data", f"{text}: the integrand of the form data has the unrestricted {exc}"))
+            what = "restricted-one-sided" if isinstance(exc, OneSidedRestricted) else "unrestricted"
+            F.append((f"C17:structure:{what}:compute_form_data", f"{text}: the integrand of the form data has the {what} {exc}"))
             break
     return F
 
 
+def _klass(rec):
+    return "valid" if rec["valid"] else "nested" if rec["nested"] else "missing" if rec["missing"] else "onesided"
+
+
 def _opposite_normals(w, rec):
-    """NormalsOpposite of the specification for the mesh kind of the record."""
-    if "opp" in rec:
-        return rec["opp"]
-    return w.sl.mesh == "affine"  # replay files written before the mesh kinds: "affine" / "p2mesh" only
+    """The facet normals (names) whose two values are opposite according to the specification."""
+    if "oppn" in rec:
+        return set(rec["oppn"])
+    if "opp" in rec:  # replay files written before the multi-domain measures
+        opp = rec["opp"]
+    else:  # replay files written before the mesh kinds: "affine" / "p2mesh" only
+        opp = w.sl.mesh == "affine"
+    return {nm for nm in w.sl.terms if TERMINALS[nm][0] == "n"} if opp else set()
 
 
 def _first(xs):
@@ -909,6 +1038,50 @@ DEEP = {"R", "var", "neg", "idx", "jump", "avg", "jumpn", "add", "mul", "div", "
 
 def pm(*names):
     return [n + s for n in names for s in "+-"]
+
+
+def _dom(mesh, it, inm=True):
+    return {"mesh": mesh, "it": it, "inm": inm}
+
+
+# Measures over two meshes A (primary, terminals f1, g, ...) and B (terminals f1_b, g_b, ...): name ->
+# (domains, terminals quick, terminals thorough).  No facet quantity on a domain with a cell integral
+# (_check_facet_geometry refuses it) and none on a domain that is not in the Measure.
+MEASURES = {
+    # exterior facets of A that are interior facets of B: the primary integral type is not interior_facet
+    "ds-dS": ([_dom("affine", "exterior_facet"), _dom("affine", "interior_facet")], ["f1", "g", "n", "f1_b", "g_b", "n_b"], ["f1", "g", "n", "v", "c", "f1_b", "g_b", "n_b", "h_b", "x_b"]),
+    # cells of a mesh of intervals A that are interior facets of the triangle mesh B
+    "dx-dS": ([_dom("codim1", "cell"), _dom("affine", "interior_facet")], ["f1", "g", "x", "f1_b", "g_b", "n_b"], ["f1", "g", "x", "h", "v", "f1_b", "g_b", "n_b", "a_b", "w_b"]),
+    # interior facets of A on the boundary of B
+    "dS-ds": ([_dom("affine", "interior_facet"), _dom("affine", "exterior_facet")], ["f1", "g", "n", "f1_b", "g_b", "n_b"], ["f1", "g", "n", "h", "f1_b", "g_b", "n_b", "a_b", "v_b", "c_b"]),
+    # interior facets of both, B with P2 coordinates (the rule of the facet normal looks at the normal's own mesh)
+    "dS-dS": ([_dom("affine", "interior_facet"), _dom("p2mesh", "interior_facet")], ["f1", "g", "n", "g_b", "n_b"], ["f1", "g", "n", "x", "f1_b", "g_b", "n_b", "x_b", "u1_b"]),
+    # B only in the integrand: FormData gives it the primary integral type
+    "dS-extra": ([_dom("affine", "interior_facet"), _dom("affine", "interior_facet", False)], ["f1", "g", "n", "f1_b", "g_b", "x_b"], ["f1", "g", "n", "a", "f1_b", "g_b", "x_b", "h_b", "w_b"]),
+}
+
+
+def measure_slices(q):
+    """Multi-domain measures: operators below a restriction (the restriction must travel through them to the
+    terminals of the two-sided domain and stop at nothing of a one-sided one), restricted terminals below operators."""
+    out = []
+    for name, (doms, tq, tt) in MEASURES.items():
+        T = tq if q else tt
+        vec = [t for t in T if TERMINALS[t][1] == 1]
+        mesh = doms[0]["mesh"]
+        bin_ = {"mul", "dot"} if vec else {"mul"}
+        kw = dict(mesh=mesh, doms=doms, run=name, form_every=1 if q else 2)
+        if q:
+            out.append(Slice(name + ":ops-R", T, [{"use", "R", *bin_}, {"R"}], **kw))
+            out.append(Slice(name + ":R-ops", T, [{"R", "grad"}, {"R", "neg", "add", *bin_}], **kw))
+        else:
+            out.append(Slice(name + ":ops-R", T, [{"use", "R", "grad", "add", *bin_}, {"R", "neg", "idx", "jump", "avg"}, {"R"}], **kw))
+            out.append(Slice(name + ":R-ops", T, [{"R", "grad", "rv"}, {"R", "neg", "add", "div", "jumpn", *bin_}], **kw))
+            out.append(Slice(name + ":cond", T[:2] + [t for t in T if t.endswith("_b")][:2], [{"R", "use"}, {"cond"}, {"R"}], **kw))
+    if not q:
+        doms, _, T = MEASURES["ds-dS"]
+        out.append(Slice("ds-dS:deep", T, [DEEP | {"use"}] + [DEEP] * 5, maxnodes=6, doms=doms, simulate=500, depth=8, form_every=2, atoms=[*T, *pm("g_b", "n_b", "h_b", "f1_b", "g"), "grad(f1_b)+", "grad(g)"]))
+    return out
 
 
 def slices(tier):
@@ -967,7 +1140,7 @@ def slices(tier):
             Slice("deep-manifold", ["f1", "u1", "g", "w", "v", "x", "n", "cn", "h", "a", "c"], [DEEP | {"use"}] + [DEEP] * 5, maxnodes=6, mesh="manifold", simulate=500, depth=8, atoms=["f1", "u1", "x", "a", "c", "g", "n", *pm("g", "w", "v", "n", "h", "cn"), "f1-", "grad(f1)+", "grad(g)-"]),
             Slice("deep-p2mesh", ["f2", "g0", "w", "vd", "x", "n", "h", "a", "c"], [DEEP | {"use"}] + [DEEP] * 5, maxnodes=6, mesh="p2mesh", simulate=500, depth=8, atoms=["f2", "x", "a", "c", "g0", "n", *pm("g0", "w", "vd", "n", "h"), "f2-"]),
         ]
-    return out
+    return out + measure_slices(q)
 
 
 # ------------------------------------------------------------------------------------------------
@@ -1022,7 +1195,7 @@ def conform(ctx, run, envs, recs, pool, form_every, best):
     for r in recs:
         if r["term"][0] != "T":
             ctx.distinct(json.dumps([run.name, r["cfg"], r["term"], r["d"]]))
-        if r["valid"] and r["verdict"] == "accept" and r["d"] != "none" and any(TERMINALS[l["nm"]][0] == "n" and l["s"] == "-" for l in r["inleaves"]):
+        if len(run.doms) == 1 and r["valid"] and r["verdict"] == "accept" and r["d"] != "none" and any(TERMINALS[l["nm"]][0] == "n" and l["s"] == "-" for l in r["inleaves"]):
             nm_cases[run.mesh] = nm_cases.get(run.mesh, 0) + 1
     for sl in run.slices:
         st = stats.get(sl.name, {})
@@ -1035,7 +1208,7 @@ def conform(ctx, run, envs, recs, pool, form_every, best):
         ctx.count("undefined_skipped", st.get("undefined_skipped", 0))
         ctx.count("terms", len(terms))
         ctx.count("forms_through_compute_form_data", st.get("forms", 0))
-        ctx.cov.setdefault("slices", []).append({"slice": sl.name, "run": run.name, "mesh": run.mesh, "terms": len(terms), "records": len(mine), "status": {k: v for k, v in sorted(st.items())}})
+        ctx.cov.setdefault("slices", []).append({"slice": sl.name, "run": run.name, "mesh": run.mesh, "measure": run.text, "domains": len(run.doms), "terms": len(terms), "records": len(mine), "status": {k: v for k, v in sorted(st.items())}})
         print(f"  slice {sl.name}: terms={len(terms)} records={len(mine)} judged={st.get('judged', 0)} forms={st.get('forms', 0)} simplified={st.get('construction_simplified', 0)}", flush=True)
     ctx.count("replay_s", round(time.time() - t0, 1))
     return stats
@@ -1052,7 +1225,8 @@ def run(ctx, args):
         "TLC builds interior-facet integrands bottom-up (one action per constructor: terminal kinds H1/non-H1 coefficient, argument, x, n, cell and "
         "facet quantities, Constant, literal; grad / reference_value of a terminal, t('+'), t('-'), variable, -, +, *, /, dot, [i], conditional, jump, "
         "jump(.,n), avg), level by level per slice (exhaustive) and by simulation for deeper terms, on every mesh kind facet_normal distinguishes (triangles: affine, "
-        "P2 coordinates, affine immersed in R^3, P2 immersed in R^3, broken P1 coordinates), then applies "
+        "P2 coordinates, affine immersed in R^3, P2 immersed in R^3, broken P1 coordinates) under the measure dS, and under measures over two meshes "
+        "(Measure(..., intersect_measures=...): ds/\\dS, dx/\\dS, dS/\\ds, dS/\\dS, dS with a second mesh only in the integrand) whose terminals live on either mesh, then applies "
         "the propagation with and without default restrictions; each (term, mode) is built on real ufl and judged; a case = one (term, mode); "
         "non-trivial = the term has at least one operator"
     )
@@ -1060,6 +1234,7 @@ def run(ctx, args):
     ctx.assume("input class = integrands after apply_derivatives: grad and reference_value wrap terminals only; triangle meshes in R^2 and R^3; scalar and R^gdim-vector valued terms (no Piola-mapped element and no reference normal on the immersed meshes: their reference shape is (tdim,))")
     ctx.assume("expressions that ufl folds when they are built (literal-only subterms, conditional with equal branches) are not judged (counted as construction_simplified)")
     ctx.assume("apply_restrictions(default_restrictions=None) is documented as 'just propagate restrictions': passing an integrand with a missing restriction is predicted by the model and not a finding there; 'missing restrictions are rejected, default-restriction on/off' is demanded of compute_form_data(do_apply_restrictions=True, do_apply_default_restrictions=True/False) on scalar integrands without arguments and reference values")
+    ctx.assume("multi-domain measures: a domain with a cell or exterior-facet integral type is one-sided: its terminals have one value, outside a restriction; an integrand that restricts one of them has no two-sided meaning (the code refuses it: 'Inconsistent restrictions'); if a tree accepted it, that is counted and not reported (neither a missing nor a double restriction); no facet quantity on a domain with a cell integral or on a domain that is not in the Measure (refused by _check_facet_geometry, resp. a KeyError there)")
     ctx.assume("trusted: the evaluator vf/sem.py (bound to the model: the meaning TLC predicts for every valid term is compared with its value of the real expression)")
     sls = slices(ctx.tier)
     only = os.environ.get("VERIF_SLICES")
@@ -1092,7 +1267,7 @@ def run(ctx, args):
                     recs = [x for x in allrecs if x["cfg"] in mine]
                     if any(x["mesh"] != r.mesh for x in recs):
                         raise MachineryError(f"world {r.name}: TLC explored a slice on another mesh kind")
-                    conform(ctx, r, renvs, recs, pool, 3 if quick else 4, best)
+                    conform(ctx, r, renvs, recs, pool, {sl.name: sl.form_every or (3 if quick else 4) for sl in r.slices}, best)
                     if len(ctx.cov["samples"]) < 5:
                         x = next((x for x in recs if x["valid"] and x["verdict"] == "accept" and x["d"] == "default" and len(json.dumps(x["term"])) > 60), recs[0])
                         ctx.sample({"run": r.name, "mesh": r.mesh, "slice": x["cfg"], "term": term_text(r, tup(x["term"])), "mode": x["d"], "verdict": x["verdict"], "predicted_leaves": x["leaves"], "predicted_value_env1": x["vals"][0]})
@@ -1115,8 +1290,22 @@ def run(ctx, args):
             raise MachineryError(f"vacuous run: no case of class {need}")
     # every mesh kind must have put the rule of the facet normal to the test
     for mesh in MESHES:
-        if not only and not ctx.cov.get("normal_minus_cases", {}).get(mesh):
+        if not only and not MESHES[mesh].get("aux") and not ctx.cov.get("normal_minus_cases", {}).get(mesh):
             raise MachineryError(f"vacuous run: no valid integrand with n('-') on the mesh kind {mesh}")
+    # every multi-domain measure must have put FormData's map and guard to the test: valid integrands accepted and
+    # invalid ones refused through compute_form_data in both modes, a restricted one-sided quantity refused
+    per = {}
+    for s in ctx.cov["slices"]:
+        if s["domains"] > 1:
+            for k, v in s["status"].items():
+                per.setdefault(s["run"], {})[k] = per.setdefault(s["run"], {}).get(k, 0) + v
+    for name, (doms, _, _) in MEASURES.items():
+        need = ["form:valid/accept/d", "form:valid/accept/nd", "form:invalid/reject/d", "form:invalid/reject/nd", "reject/reject/missing/d"]
+        if any(d["it"] != "interior_facet" for d in doms):
+            need.append("reject/reject/onesided/d")
+        for k in need:
+            if not only and not per.get(name, {}).get(k):
+                raise MachineryError(f"vacuous run: no case of class {k} under the measure {name}")
     ctx.cov["verdict_classes"] = {k: v for k, v in sorted(tot.items()) if "/" in k}
 
 
